@@ -140,7 +140,22 @@ impl<'brand> ConstructNode<'brand> {
                 wit: &Option<Value>,
             ) -> Result<Value, Self::Error> {
                 if let Some(ref wit) = wit {
-                    Ok(wit.shallow_clone())
+                    let ty = data
+                        .node
+                        .arrow()
+                        .target
+                        .finalize()
+                        .map_err(FinalizeError::Type)?;
+                    // The value must have exactly the target type of its node. Values
+                    // whose type differs only in parts that the value does not use (the
+                    // other side of a sum) are converted; anything else is an error.
+                    wit.prune(&ty).ok_or_else(|| {
+                        FinalizeError::Type(types::Error::CompleteTypeMismatch {
+                            type1: ty,
+                            type2: Arc::new(wit.ty().clone()),
+                            hint: "witness value does not fit the target type of its node",
+                        })
+                    })
                 } else {
                     // We insert a zero value into unpopulated witness nodes,
                     // assuming that this node will later be pruned out of the program.
